@@ -460,5 +460,10 @@ func CheckC14(e *Env) int {
 	if rep.Counters["renaming_wiring_compared"] == 0 {
 		rep.Incon = append(rep.Incon, "no renaming pair was compared")
 	}
+	// the package-level variables wire invents for value expressions: one per expression as
+	// written where it was written - the same text in two packages names two things
+	tp, tkeys, tpairs := c13TwinProgram("ntwin")
+	tres := RunPool(e, []*Program{tp}, PoolOpts{Execute: true, Name: "c14tw", BatchSize: 1})
+	judgeTwin(rep, tres[0], tkeys, tpairs)
 	return rep.Finish(t0)
 }
